@@ -14,7 +14,7 @@
    exceeds the number of directories, so the instances give it the heap size.
    Running out of fuel is a distinct outcome (the model's rendering of a walk
    that does not end on a cyclic graph). *)
-From Avfs Require Import Base PathModel MemFS.
+From Avfs Require Import Base PathModel MemFS MemFile.
 Set Implicit Arguments.
 
 (* fs.ModeType = ModeDir | ModeSymlink | ModeNamedPipe | ModeSocket | ModeDevice | ModeCharDevice | ModeIrregular *)
@@ -52,6 +52,17 @@ Record prims (E : Type) := {
   p_match : str -> str -> mr;
   p_not_exist : E -> bool                (* errors.Is(err, fs.ErrNotExist) *)
 }.
+
+(* vfs.go ReadDir: OpenFile ; f.ReadDir(-1) ; sort.Slice by name ; Close - over a file system whose
+   File.ReadDir(-1) ([raw]: entries and error of open+read) lists the directory in ANY order (MemFile and
+   OrefaFile happen to sort, os.File behind OsFS / BasePathFile / FailFile returns directory order). *)
+Definition vfs_read_dir (E : Type) (raw : str -> list dent * option E) (name : str) : list dent * option E :=
+  let '(dirs, err) := raw name in (sort_by (@de_name) dirs, err).
+
+(* the primitives of a file system whose vfs.ReadDir is the generic composite over the file listing [raw] *)
+Definition with_file_listing (E : Type) (P : prims E) (raw : str -> list dent * option E) : prims E :=
+  {| p_lstat := p_lstat P; p_stat := p_stat P; p_read_dir := vfs_read_dir raw; p_dir_names := p_dir_names P;
+     p_match := p_match P; p_not_exist := p_not_exist P |}.
 
 Section Walk.
   Variables E X : Type.
